@@ -50,25 +50,32 @@ for pid in sorted(os.listdir(root)):
             mm = re.search(r'(\*\*(Trigger|Needs|To manifest|When it shows|Why tests miss it)[^*]*\*\*.*?)(?=\n- \*\*|\n\n|\Z)', notes, re.S)
             if mm: needs = ' '.join(mm.group(1).split())[:900]
         key = (pid, n)
+        old = {}
+        mp = os.path.join(sd, 'meta.json')
+        if os.path.exists(mp):
+            try:
+                old = json.load(open(mp))
+            except Exception:
+                old = {}
         first = None
         for fr in firsts:
             if key in fr:
                 first = fr[key]; break
         meta = dict(
-            property=pid, seed=n, round={'a':1,'b':1,'c':2,'d':2,'e':3,'f':3}.get(n,0),
+            property=pid, seed=n, round={'a':1,'b':1,'c':2,'d':2,'e':3,'f':3,'g':4,'h':4,'i':5,'j':5}.get(n,0),
             title=title, files_changed=files, functions_touched=funcs,
             breaks='see notes.md (clause of the property, why it looks innocent)',
             needs_to_manifest=needs or 'see notes.md',
             demonstration='demo_test.go.txt (copy into the package directory as *_test.go; test names start with TestSeed)',
             what_was_run=dict(
                 procedure='tools/verify_seeds.sh: scratch worktree of /repo HEAD; demo without the patch; git apply patch.diff; go build ./...; demo with the patch; go test -vet=off -count=1 ./... with the patch',
-                **verify.get(key, dict(note='not re-verified in the last run'))),
+                **(verify.get(key) or {k: v for k, v in old.get('what_was_run', {}).items() if k != 'procedure'} or dict(note='not re-verified in the last run'))),
             checks=dict(
                 command='tools/run_seeds.sh (git -C /repo apply patch.diff; gojacheck -prop %s -tier quick; git -C /repo checkout -- .)' % pid,
                 caught=final.get(key, {}).get('caught'),
                 caught_by=final.get(key, {}).get('rule'), construct=final.get(key, {}).get('construct'),
-                caught_when_first_run=(first or {}).get('caught'),
-                caught_when_first_run_by=(first or {}).get('rule')),
+                caught_when_first_run=(first or {}).get('caught') if first is not None else old.get('checks', {}).get('caught_when_first_run'),
+                caught_when_first_run_by=(first or {}).get('rule') if first is not None else old.get('checks', {}).get('caught_when_first_run_by')),
         )
         json.dump(meta, open(os.path.join(sd, 'meta.json'), 'w'), indent=1)
         print(pid, n, meta['checks']['caught'], meta['checks']['caught_by'], '| first:', meta['checks']['caught_when_first_run'])
